@@ -308,6 +308,10 @@ class SyncDrive(_BaseDrive):
         self._n += 1
         eio_sid = self.eio.generate_id()
         s = eio_socket.Socket(self.eio, eio_sid)
+        # close(wait=True) waits until the transport's writer has taken
+        # everything that is queued; the harness is that writer and reads the
+        # queue later, from the same thread
+        s.queue.join = lambda: None
         self.eio.sockets[eio_sid] = s
         t = Transport(self, eio_sid, s, self._n)
         self.transports.append(t)
@@ -423,6 +427,10 @@ class AsyncDrive(_BaseDrive):
         async def mk():
             return async_socket.AsyncSocket(self.eio, eio_sid)
         s = self.loop.run_until_complete(mk())
+
+        async def no_wait():
+            return None
+        s.queue.join = no_wait
         self.eio.sockets[eio_sid] = s
         t = Transport(self, eio_sid, s, self._n)
         self.transports.append(t)
